@@ -22,6 +22,23 @@
                                     GMM (a GMMMachine built from ubm_kwargs carrying the same seed).
      WCCN     (wccn.py:55-77)       none.
 
+   Objects.  "Training the same estimator twice" includes fitting the SAME object again, and objects handed
+   from one estimator to the next (a configured k_means_trainer shared by several GMMs).  A Fit step is made
+   on a "fresh" object or on a "used" one: an object built with the same constructor arguments (estimator,
+   configuration, seed) that an earlier step of the history has fitted -- on any problem.  As written:
+     k-means  fit() re-initialises the centroids (initialize) and starts its loop from a local
+              `distance = inf`; average_min_distance is overwritten by every iteration.  Nothing an earlier fit
+              left on the object is read.
+     GMM      config "drawn": the initialisation is run by the k-means trainer object; a used trainer behaves
+              like a fresh one (above).  (Calling fit() again on a GMM that has means CONTINUES its training:
+              another question, specified in GmmFit.tla.)
+     ISV/JFA  fit() on an object that already has U and D CONTINUES from them (factor_analysis.py:237
+              `if not hasattr(self, "_U") ...: create_UVD()`), and the UBM trained by a first
+              fit_using_array is kept: like a GMM with means, a second fit is another question.  Not reusable
+              in this model.
+     WCCN     everything is recomputed.
+   So the result does not depend on the object being used.
+
    The result of a fit is an uninterpreted function, represented by the record of its arguments:
    estimator, configuration, problem (the labelled sample MULTISET and the hyper-parameters), the tokens
    the randomness source yields, and -- only where the code (or a named deviation) makes it so -- the
@@ -34,7 +51,9 @@
      GMM_KMEANS_UNSEEDED           KMeansMachine(n_gaussians) without random_state: always the default seed
      UVD_NOT_RESEEDED              create_UVD without np.random.seed
      WCCN_DEPENDS_ON_LABEL_ORDER   class means looked up by label value / label iteration order
-     ACC_IGNORES_CLASS_ID          per-class accumulation not addressed by the class id              *)
+     ACC_IGNORES_CLASS_ID          per-class accumulation not addressed by the class id
+     LOOP_BOOKKEEPING_SURVIVES_FIT the k-means loop compares its first criterion with what the previous fit of
+                                   the object left behind (previous criterion kept on the object)      *)
 EXTENDS Integers, Sequences, FiniteSets, TLC, Json
 
 CONSTANTS Ests,          \* subset of {"kmeans", "gmm", "isv", "jfa", "wccn"}
@@ -89,28 +108,42 @@ OrderDep(e, c, o) == IF c = "drawn" THEN o ELSE 0
 LabelDep(e, p) == IF \/ e = "wccn" /\ "WCCN_DEPENDS_ON_LABEL_ORDER" \in Dev
                      \/ e \in {"isv", "jfa"} /\ "ACC_IGNORES_CLASS_ID" \in Dev
                   THEN p ELSE 0
-Result(gs, e, c, d, o, p, r) ==
-    [e |-> e, c |-> c, d |-> d, toks |-> Run(gs, e, c, r).toks, o |-> OrderDep(e, c, o), p |-> LabelDep(e, p)]
-NoResult == [e |-> "-", c |-> "-", d |-> 0, toks |-> <<>>, o |-> 0, p |-> 0]
+\* what a used object carries into the fit: the problem its last fit was made on (0: nothing is read)
+LeftDep(e, c, ob, ld) == IF /\ ob = "used" /\ "LOOP_BOOKKEEPING_SURVIVES_FIT" \in Dev
+                            /\ (e = "kmeans" \/ (e = "gmm" /\ c = "drawn"))
+                         THEN ld ELSE 0
+Result(gs, e, c, d, o, p, r, ob, ld) ==
+    [e |-> e, c |-> c, d |-> d, toks |-> Run(gs, e, c, r).toks, o |-> OrderDep(e, c, o), p |-> LabelDep(e, p),
+     left |-> LeftDep(e, c, ob, ld)]
+NoResult == [e |-> "-", c |-> "-", d |-> 0, toks |-> <<>>, o |-> 0, p |-> 0, left |-> 0]
 
-Step(a, e, c, d, o, p, r, res, ga) ==
-    [a |-> a, e |-> e, c |-> c, d |-> d, o |-> o, p |-> p, r |-> r, res |-> res, ga |-> ga]
+Step(a, e, c, d, o, p, r, ob, res, ga) ==
+    [a |-> a, e |-> e, c |-> c, d |-> d, o |-> o, p |-> p, r |-> r, ob |-> ob, res |-> res, ga |-> ga]
+
+\* which objects can be used again for the same question
+Reusable(e, c) == \/ e \in {"kmeans", "wccn"}
+                  \/ e = "gmm" /\ c = "drawn"            \* the shared k-means trainer
+\* the problem of the last fit made with an object of these constructor arguments (0: none yet)
+LastFits(e, c, r) == {i \in 1..Len(hist) : hist[i].a = "Fit" /\ hist[i].e = e /\ hist[i].c = c /\ hist[i].r = r}
+LastD(e, c, r) == LET I == LastFits(e, c, r) IN IF I = {} THEN 0 ELSE hist[CHOOSE i \in I : \A j \in I : j <= i].d
 
 Init == g = Boot /\ hist = <<>>
 
 Perturb == \E s \in PerturbSeeds :
               /\ Len(hist) < MaxLen
               /\ g' = Reseed(s)
-              /\ hist' = Append(hist, Step("Perturb", "-", "-", 0, 0, 0, s, NoResult, g'))
+              /\ hist' = Append(hist, Step("Perturb", "-", "-", 0, 0, 0, s, "-", NoResult, g'))
 PerturbDraw == /\ Len(hist) < MaxLen
                /\ g' = Adv(g, 1)
-               /\ hist' = Append(hist, Step("PerturbDraw", "-", "-", 0, 0, 0, 0, NoResult, g'))
+               /\ hist' = Append(hist, Step("PerturbDraw", "-", "-", 0, 0, 0, 0, "-", NoResult, g'))
 Fit == \E e \in Ests, d \in Problems, o \in Orders :
          \E c \in Configs(e), p \in (IF Labelled(e) THEN Relabels ELSE {1}),
             r \in (IF Seeded(e) THEN Seeds ELSE {0}) :
+            \E ob \in (IF Reusable(e, c) /\ LastD(e, c, r) # 0 THEN {"fresh", "used"} ELSE {"fresh"}) :
               /\ Len(hist) < MaxLen
               /\ g' = Run(g, e, c, r).g
-              /\ hist' = Append(hist, Step("Fit", e, c, d, o, p, r, Result(g, e, c, d, o, p, r), g'))
+              /\ hist' = Append(hist, Step("Fit", e, c, d, o, p, r, ob,
+                                           Result(g, e, c, d, o, p, r, ob, LastD(e, c, r)), g'))
 
 Next == Perturb \/ PerturbDraw \/ Fit
 Spec == Init /\ [][Next]_vars
@@ -125,7 +158,7 @@ ResultIsFunctionOfMultisetAndSeed ==
     \A i, j \in FitIdx : SameQuestion(hist[i], hist[j]) => hist[i].res = hist[j].res
 \* every fit gives what the same fit gives as the first action of a fresh process
 HistoryIndependent ==
-    \A i \in FitIdx : LET s == hist[i] IN s.res = Result(Boot, s.e, s.c, s.d, s.o, s.p, s.r)
+    \A i \in FitIdx : LET s == hist[i] IN s.res = Result(Boot, s.e, s.c, s.d, s.o, s.p, s.r, "fresh", 0)
 \* every token a fit consumes belongs to the stream named by its own random_state
 RandomnessComesFromOwnSeed ==
     \A i \in FitIdx : \A k \in 1..Len(hist[i].res.toks) : hist[i].res.toks[k][1] = hist[i].r
@@ -137,7 +170,7 @@ GlobalStreamEffectDocumented ==
 
 \* ---------------- export of the complete histories that end with a fit (M2)
 Compact(s) == IF s.a = "Fit"
-              THEN <<"Fit", s.e, s.c, s.d, s.o, s.p, s.r, s.res.toks, s.res.o, s.res.p, s.ga.seed, s.ga.pos>>
+              THEN <<"Fit", s.e, s.c, s.d, s.o, s.p, s.r, s.res.toks, s.res.o, s.res.p, s.ga.seed, s.ga.pos, s.ob>>
               ELSE <<s.a, s.r, s.ga.seed, s.ga.pos>>
 Export == IF Len(hist) = MaxLen /\ hist[MaxLen].a = "Fit"
           THEN PrintT(ToJson([h |-> [i \in 1..Len(hist) |-> Compact(hist[i])]]))
